@@ -56,6 +56,7 @@ def rule_r1_r2(rep, program: Program, prop=PROP, ids=("R1", "R2")):
     param = f.params[1]
     body = f.body_without_docstring()
     cur = {param: "param"}
+    arith: dict = {}  # arithmetic locals (e.g. a named time step)
     step_call = None
     ret = None
     for st in body:
@@ -72,9 +73,13 @@ def rule_r1_r2(rep, program: Program, prop=PROP, ids=("R1", "R2")):
                 cur[st.targets[0].id] = cur[v.id]
             else:
                 cur[st.targets[0].id] = "other"
+                try:
+                    arith[st.targets[0].id] = eval_expr(v, arith)
+                except AnalysisError:
+                    arith.pop(st.targets[0].id, None)
             continue
         if isinstance(st, ast.Expr) and isinstance(st.value, ast.Call) and call_name(st.value) == "self._step":
-            step_call = (st.value, dict(cur))
+            step_call = (st.value, dict(cur), dict(arith))
             continue
         if isinstance(st, ast.Return):
             ret = (st, dict(cur))
@@ -85,7 +90,7 @@ def rule_r1_r2(rep, program: Program, prop=PROP, ids=("R1", "R2")):
                 r1.violate(prop, f"Integrator.step:writes-argument:{norm(n)}", "step() writes an attribute of the state it was given", node=n, file=f.file)
     if step_call is None or ret is None:
         raise AnalysisError("Integrator.step: _step call or return not found")
-    call, env_at_call = step_call
+    call, env_at_call, arith_at_call = step_call
     x = call.args[0]
     kind = env_at_call.get(x.id) if isinstance(x, ast.Name) else None
     r1.inst({"site": "Integrator.step", "stepped object": norm(x), "is": kind})
@@ -99,7 +104,7 @@ def rule_r1_r2(rep, program: Program, prop=PROP, ids=("R1", "R2")):
         if k.resolve("step") is not f:
             r1.violate(prop, f"{k.name}.step:override", f"{k.name} overrides step(): the copy-before-step contract is bypassed", node=k.resolve("step").node, file=k.resolve("step").file)
     # R2
-    t = eval_expr(call.args[1], {})
+    t = eval_expr(call.args[1], arith_at_call)
     want = Rat.sym(f"{norm(x)}.dir") * Rat.sym("self.step_size")
     r2.inst({"time argument": norm(call.args[1]), "normal form": repr(t)})
     if not t.equals(want):
